@@ -1507,6 +1507,10 @@ class LangServer:
                 continue
             if inc.file.ast.inc_scope is not None:
                 inc.file.ast.none_scope = inc.file.ast.inc_scope
+                # ... and its entities their own place in it
+                for child in inc.file.ast.inc_scope.children:
+                    child.set_parent(inc.file.ast.inc_scope)
+                    child.update_fqsn(inc.file.ast.inc_scope.FQSN)
 
     def _forget_file_pp_defs(self, file_obj: FortranFile) -> None:
         """Remove the preprocessor definitions previously taken from ``file_obj``"""
